@@ -399,7 +399,12 @@ pub fn main(subjects: Vec<Box<dyn DynSubject>>, lay: (Layouts, BTreeMap<String, 
             });
         }
     });
-    let rep = merged.into_inner().unwrap();
+    let mut rep = merged.into_inner().unwrap();
+    if prop == "C08" && u.label == "extra" && only.is_none() && from == 0 && replay.as_ref().map_or(true, |r| !r["env"]["bigfile"].is_null()) {
+        let t0 = std::time::Instant::now();
+        rep.merge(crate::checks::bigfile::run(tier, seed, &tmp, replay.as_ref()));
+        rep.notes.push(format!("files of more than 2 GiB: stage took {:.1}s", t0.elapsed().as_secs_f64()));
+    }
     let mut j = rep.to_json();
     j["wall_s"] = json!(start.elapsed().as_secs_f64());
     j["subjects"] = json!(idxs.len());
